@@ -122,32 +122,41 @@ def known_signature(h, ev):
     A deviation in a history without any negative component never matches."""
     return has_negative(h)
 
-def validate(res, wd, name, hists, kf, depth=0):
+def validate(res, wd, name, hists, kf):
     """hists: histories tagged with job (driver line), fam, allow_known (the family inserts negative keys: deviations matching the
     listed finding's signature are KNOWN-FINDING) and tolerant (sequential history: an inexplicable insert result is reported and
-    the trace continues).  They are concatenated (reset between them) and judged by TLC against TupleSetAbs in one run."""
-    events = []; owner = []
+    the history continues).  They are concatenated (reset between them) and judged by TLC against TupleSetAbs in one run."""
+    events = []; owner = []; start = []
     for hi, h in enumerate(hists):
+        start.append(len(events) + 1)
         events.append({"e": "reset", "tol": bool(h["tolerant"])}); owner.append(hi)
         for e in h["events"]:
             events.append(e); owner.append(hi)
-    if not events:
+    if not hists:
         return
+    start.append(len(events) + 1)
+    events.append({"e": "reset", "tol": False}); owner.append(len(hists))     # closes the last history
     acc, consumed, r = tracecheck.validate("TupleSetAbsTrace", events, wd, name, timeout=2400, heap="12g",
                                            constants="CONSTANT Clients = {1, 2, 3, 4, 5, 6, 7, 8}")
-    res.count("trace_events", len(events) if acc else consumed)
-    if acc is None:
-        res.infra_errors.append("trace validation %s failed to run: %s" % (name, str(r["error"])[-800:])); return
+    res.count("trace_events", len(events))
+    if not acc:
+        res.infra_errors.append("trace validation %s did not consume the whole trace (stopped at event %s): %s"
+                                % (name, consumed, str(r["error"] or r["violated"])[-800:])); return
     res.add_tlc(r)
     listed = known.is_listed(kf, PID, KNOWN_ID)
-    # deviations TLC reported while continuing the trace: (event number, what the set model says)
+    alive = set(int(m.group(1)) for m in re.finditer(r'<<"ALIVE", (\d+)>>', r["out"]))
+    died = [int(m.group(1)) for m in re.finditer(r'<<"DIED", (\d+)>>', r["out"])]
+    # deviations: (event number, what the set model says)
     devs = {}
     for m in re.finditer(r'<<"MISMATCH", (\d+), (.*)>>', r["out"]):
         devs.setdefault(int(m.group(1)), m.group(2))
-    blocked = None
-    if not acc:   # an insert return that no linearization explains: the trace stops there
-        blocked = min(consumed, len(events) - 1)
-        devs[blocked + 1] = "no linearization of the overlapping insert calls explains this result"
+    for hi in range(len(hists)):
+        if start[hi + 1] not in alive:      # no placement of the linearization points explains this history's insert results
+            d = [x for x in died if start[hi] < x < start[hi + 1]]
+            devs[max(d) if d else start[hi] + 1] = "no linearization of the overlapping insert calls explains this result"
+            for l in list(devs):            # answers reported by branches that died later are not meaningful
+                if start[hi] < l < start[hi + 1] and l > (max(d) if d else 0):
+                    del devs[l]
     bad_hist = set(); known_hits = {}
     for l, exp in sorted(devs.items()):
         hi = owner[l - 1]; h = hists[hi]; ev = events[l - 1]
@@ -167,11 +176,12 @@ def validate(res, wd, name, hists, kf, depth=0):
             continue
         bad_hist.add(hi)
         calls = [e for e in h["events"] if e["e"] in ("call", "ret")]
-        res.violations.append(("history of the real Trie rejected by spec/TupleSetAbs.tla at event %s: the set model says %s; job %r "
-                               "schedule %r; insert history %s" % (ev, exp, h["job"], h["label"], calls[:40]),
-                               _save(wd, "rejected_%s_%d" % (name, hi), [h["job"]])))
-    nvalid = (owner[blocked] if blocked is not None else len(hists))
-    res.cov["traces_validated_against_impl"] += nvalid - len([x for x in bad_hist if x < nvalid])
+        if len(res.violations) < 25:
+            res.violations.append(("history of the real Trie rejected by spec/TupleSetAbs.tla at event %s: the set model says %s; job %r "
+                                   "schedule %r; insert history %s" % (ev, exp, h["job"], h["label"], calls[:40]),
+                                   _save(wd, "rejected_%s_%d" % (name, hi), [h["job"]])))
+    res.count("histories_rejected", len(bad_hist))
+    res.cov["traces_validated_against_impl"] += len(hists) - len(bad_hist)
     if known_hits:
         res.count("histories_with_known_finding", len(known_hits))
         hi = sorted(known_hits)[0]; ev, exp = known_hits[hi][0]
@@ -181,9 +191,6 @@ def validate(res, wd, name, hists, kf, depth=0):
         for v in known_hits.values():
             for ev, _ in v:
                 kinds[ev["e"]] = kinds.get(ev["e"], 0) + 1
-    if blocked is not None and owner[blocked] + 1 < len(hists) and depth < 40:
-        # the histories after the rejected one have not been judged yet
-        validate(res, wd, name + "_", hists[owner[blocked] + 1:], kf, depth + 1)
 
 def report_exec_problems(res, wd, hists, crash, lines, what):
     for h in hists:
@@ -418,8 +425,6 @@ def run(tier, replay_path=None):
             res.sample({"family": fname, "job": h["job"], "schedule": h["label"],
                         "events": [json.dumps(e) for e in h["events"][:14]]}, limit=12)
     t0 = time.time()
-    # strict histories first; the (few) concurrent negative-key histories last, because a rejected insert result stops a run
-    allh.sort(key=lambda h: h["fam"] == "stress_negative")
     validate(res, wd, "MCT_Brie", allh, kf)
     phases["T tlc"] = round(time.time() - t0, 1)
     res.sample({"spec": "BrieImpl.tla / TupleSetAbs.tla", "configs": cfgs})
